@@ -12,6 +12,8 @@ import (
 	v2 "github.com/deadsy/sdfx/vec/v2"
 	v3 "github.com/deadsy/sdfx/vec/v3"
 	"pgregory.net/rapid"
+
+	"verif/internal/g"
 )
 
 // Outside3 returns the distance from p to the box (0 inside).
@@ -81,7 +83,7 @@ func Probe3(t *rapid.T, s sdf.SDF3, S float64, leak func(p v3.Vec, value, outsid
 			leak(p, v, out, how)
 		}
 	}
-	u := func(l string, i int) float64 { return rapid.Float64Range(-1, 1).Draw(t, fmt.Sprintf("%s%d", l, i)) }
+	u := func(l string, i int) float64 { return g.F(-1, 1).Draw(t, fmt.Sprintf("%s%d", l, i)) }
 	var interior []v3.Vec
 	nIn := rapid.IntRange(60, 160).Draw(t, "nin")
 	for i := 0; i < nIn; i++ {
@@ -93,7 +95,7 @@ func Probe3(t *rapid.T, s sdf.SDF3, S float64, leak func(p v3.Vec, value, outsid
 	res.Interior = len(interior)
 	nSh := rapid.IntRange(60, 200).Draw(t, "nsh")
 	for i := 0; i < nSh; i++ {
-		k := 1 + 3*rapid.Float64Range(0, 1).Draw(t, fmt.Sprintf("sk%d", i))
+		k := 1 + 3*g.F(0, 1).Draw(t, fmt.Sprintf("sk%d", i))
 		probe(v3.Vec{X: c.X + u("sx", i)*(h.X*k+0.02*ext), Y: c.Y + u("sy", i)*(h.Y*k+0.02*ext), Z: c.Z + u("sz", i)*(h.Z*k+0.02*ext)}, "shell")
 	}
 	nF := rapid.IntRange(30, 90).Draw(t, "nf")
@@ -171,7 +173,7 @@ func Probe2(t *rapid.T, s sdf.SDF2, S float64, leak func(p v2.Vec, value, outsid
 			leak(p, v, out, how)
 		}
 	}
-	u := func(l string, i int) float64 { return rapid.Float64Range(-1, 1).Draw(t, fmt.Sprintf("%s%d", l, i)) }
+	u := func(l string, i int) float64 { return g.F(-1, 1).Draw(t, fmt.Sprintf("%s%d", l, i)) }
 	var interior []v2.Vec
 	nIn := rapid.IntRange(60, 160).Draw(t, "nin")
 	for i := 0; i < nIn; i++ {
@@ -183,7 +185,7 @@ func Probe2(t *rapid.T, s sdf.SDF2, S float64, leak func(p v2.Vec, value, outsid
 	res.Interior = len(interior)
 	nSh := rapid.IntRange(60, 200).Draw(t, "nsh")
 	for i := 0; i < nSh; i++ {
-		k := 1 + 3*rapid.Float64Range(0, 1).Draw(t, fmt.Sprintf("sk%d", i))
+		k := 1 + 3*g.F(0, 1).Draw(t, fmt.Sprintf("sk%d", i))
 		probe(v2.Vec{X: c.X + u("sx", i)*(h.X*k+0.02*ext), Y: c.Y + u("sy", i)*(h.Y*k+0.02*ext)}, "shell")
 	}
 	nF := rapid.IntRange(30, 90).Draw(t, "nf")
@@ -206,7 +208,7 @@ func Probe2(t *rapid.T, s sdf.SDF2, S float64, leak func(p v2.Vec, value, outsid
 		nR := rapid.IntRange(10, 40).Draw(t, "nr")
 		for i := 0; i < nR; i++ {
 			q := interior[rapid.IntRange(0, len(interior)-1).Draw(t, fmt.Sprintf("rq%d", i))]
-			a := rapid.Float64Range(-math.Pi, math.Pi).Draw(t, fmt.Sprintf("ra%d", i))
+			a := g.F(-math.Pi, math.Pi).Draw(t, fmt.Sprintf("ra%d", i))
 			d := v2.Vec{X: math.Cos(a), Y: math.Sin(a)}
 			tExit := math.Inf(1)
 			if d.X > 0 {
